@@ -5,13 +5,16 @@ Line-protocol interpreter of the C11 model.
 
   gsplit  nrow ncol keep a0 a1 c p q | mask | acs | xs | ys      -> ok input | target | n free
   usplit  nrow ncol keep a0 a1 count p q | mask | acs | chosen   -> ok input | target | count free   (last group empty when nothing is drawn)
-  hsplit  nrow ncol keep a0 a1 dir | mask | acs                        -> ok input | target
+  hsplit  nrow ncol keep a0 a1 dir | mask | acs | xs | ys (float32 linspace values, one integer scale)                        -> ok input | target
   seed    | filename code points | slice code points             -> ok seed | tuple
   fwd     kind B C nrow ncol keep a0 a1 dir useSeed | <per sample: mask | acs | filename | slice | kspace |
           c p q idx seed | tuple | xs-or-chosen | ys>             -> ok <per sample: in | tgt | inK | tgtK>
 
-`c` / `count` is the float32-derived integer computed by the harness; it must lie within the stated float
-rounding slack of the exact-rational count of the model, else `err CountOutsideRatio`.
+  ssl_out cells | input mask | target mask | masked k-space | prediction -> ok projected prediction | loss reference
+
+`c` / `count` is the float32-derived integer computed by the harness (its own emulation of the float32 product); it
+must equal the count of the model's float32 product (`countCeilF32` / `countFloorF32`), else `err CountOutsideRatio`.
+  f32count S p q -> ok ceil floor ratioCeil ratioFloor
 -/
 namespace DirectVerif.Driver.C11
 open DirectVerif DirectVerif.Driver DirectVerif.SslSplit
@@ -28,10 +31,9 @@ def dirOf : Int → Option Dir
   | 3 => some .diagRight
   | _ => none
 
-/-- float32 rounding may lift an exact-integer product just above the integer: ceil moves by at most +1 -/
-def ceilSlackOk (S p q c : Int) : Bool := ratioCeil S p q ≤ c && c ≤ ratioCeil S p q + 1
-/-- …and may round a product up to the next integer or leave it just below: floor moves by at most 1 -/
-def floorSlackOk (S p q c : Int) : Bool := ratioFloor S p q - 1 ≤ c && c ≤ ratioFloor S p q + 1
+/-- the requested count must be the one the float32 model of the product yields -/
+def ceilSlackOk (S p q c : Int) : Bool := 0 ≤ S && 0 ≤ p && 0 < q && c == countCeilF32 S.toNat p.toNat q.toNat
+def floorSlackOk (S p q c : Int) : Bool := 0 ≤ S && 0 ≤ p && 0 < q && c == countFloorF32 S.toNat p.toNat q.toNat
 
 structure Shape where
   nrow : Nat
@@ -83,14 +85,14 @@ def opUSplit (hdr mask acs chosen : List Int) : String :=
       | .ok (i, t) => okG [ofGrid i, ofGrid t, if count == 0 || free == 0 then [] else [count, free]]
   | _ => "err BadOp"
 
-def opHSplit (hdr mask acs : List Int) : String :=
+def opHSplit (hdr mask acs xs ys : List Int) : String :=
   match hdr with
   | [nrow, ncol, keep, a0, a1, dir] =>
     match mkShape nrow ncol keep mask acs, dirOf dir with
     | .error e, _ => e
     | _, none => "err BadOp"
     | .ok s, some d =>
-      let (i, t) := halfSplit d (keep != 0) a0 a1 s.nrow s.ncol s.mask s.acs
+      let (i, t) := halfSplit d xs ys (keep != 0) a0 a1 s.nrow s.ncol s.mask s.acs
       okG [ofGrid i, ofGrid t]
   | _ => "err BadOp"
 
@@ -111,7 +113,7 @@ def fwdSample (kind nrow ncol keep a0 a1 dir useSeed coils : Int) (g : List (Lis
       if kind == 2 then
         match dirOf dir with
         | none => .error "err BadOp"
-        | some d => .ok (outGroups (forwardHalf d kp a0 a1 s.nrow s.ncol s.mask s.acs k))
+        | some d => .ok (outGroups (forwardHalf d d0 d1 kp a0 a1 s.nrow s.ncol s.mask s.acs k))
       else if kind == 0 then
         let S := cnt (reducedMask kp s.mask s.acs)
         if !ceilSlackOk S p q c then .error "err CountOutsideRatio" else
@@ -151,12 +153,21 @@ def step (op : String) (gs : List (List Int)) : String :=
   match op, gs with
   | "gsplit", [hdr, mask, acs, xs, ys] => opGSplit hdr mask acs xs ys
   | "usplit", [hdr, mask, acs, chosen] => opUSplit hdr mask acs chosen
-  | "hsplit", [hdr, mask, acs] => opHSplit hdr mask acs
+  | "hsplit", [hdr, mask, acs, xs, ys] => opHSplit hdr mask acs xs ys
   | "seed", [_, filename, slice] =>
     if filename.isEmpty && slice.isEmpty then "err ValueError" else
     let t := seedTuple (nats filename) (nats slice)
     okG [[gaussianSeed t], t.map Int.ofNat]
   | "fwd", hdr :: rest => opFwd hdr rest
+  | "f32count", [[S, p, q]] =>
+    if S < 0 || p < 0 || q ≤ 0 then "err BadOp" else
+    okG [[countCeilF32 S.toNat p.toNat q.toNat, countFloorF32 S.toNat p.toNat q.toNat, ratioCeil S p q, ratioFloor S p q]]
+  | "ssl_out", [[cells], i, t, k, pred] =>
+    if cells ≤ 0 || i.length ≠ cells.toNat || t.length ≠ cells.toNat || pred.length ≠ k.length || !isBits i || !isBits t then
+      "err BadOp"
+    else
+      okG [sslOutput cells.toNat (toGrid i) (toGrid t) (applyMaskK cells.toNat (toGrid i) k) pred,
+           applyMaskK cells.toNat (toGrid t) k]
   | _, _ => "err BadOp"
 
 end DirectVerif.Driver.C11
